@@ -91,6 +91,27 @@ CLAIMED = {
         'in Cartesian / polar rad / polar deg); each rendered text is tokenised and judged by TLC with the TLA+ operator Display!RenderVerdict (sign, exponent multiple of 3, '
         'mantissa in [1,1000], within half a unit of the p-th significant digit with exact ties accepted, infinity only from 10^M upwards); text that does not tokenise is a violation.',
    ref='DESIGN.md §6 C18', technique='TLA+ acceptance predicate evaluated by TLC on recorded outputs (trace validation, code->spec)'),
+ 'C10': dict(
+   text='The TLA+ module StateSpace derives (A, B) and every output row by SUBSTITUTION (capacitor -> voltage source, inductor -> current source, solve the resistive network '
+        'with the MNA operators, read i_C/C and v_L/L) - independent of the library\'s inverse-matrix construction - and TLC checks on every non-degenerate circuit of the '
+        'bounded generator (degeneracy decided exactly) that C(jwI-A)^-1 B + D equals the exact phasor response of every output (node potential, element voltage, element '
+        'current) to every source at every frequency of the sweep incl. w = 0 (DC gain), and that dim = #C + #L.  Replay: nodal_state_space_model (A, B, c_row_*/d_row_*, '
+        'published sources) and Circuit.state_space_model.state_space_model are compared THROUGH THE TRANSFER FUNCTION (state basis free) under 30 adversarial naming schemes.',
+   ref='DESIGN.md §6 C10', technique='TLA+ spec + TLC bounded model checking of TF = phasor response; spec->code replay'),
+ 'C11': dict(
+   text='TLC checks on the specification\'s state matrix of every non-degenerate circuit in the bound that W A + A^T W is negative semidefinite (signs of all principal minors, '
+        'exact) and that Gaussian-rational poles have non-positive real part.  The library\'s A is compared entrywise with that matrix in the published state order (so swapped '
+        'value assignments show), its eigenvalues and W A + A^T W are checked numerically, and the stored energy of one simulated free response per scenario is recorded and '
+        'judged by TLC (Trace_C11: E[k+1] <= E[k] + eps after the inputs have returned to zero).',
+   ref='DESIGN.md §6 C11', technique='TLA+ spec + TLC (exact definiteness test); spec->code replay; code->spec trace validation of energy sequences'),
+ 'C12': dict(
+   text='For circuits with distinct Gaussian-rational poles (all first-order ones, second-order ones with rational-square discriminant incl. designed complex-pole families) '
+        'the TLA+ module Transient carries the exact first-order-hold response to step / triangle / ramp inputs symbolically - polynomials in p_i = exp(lambda_i h) and 1/h built '
+        'from spectral projectors that TLC checks to reproduce A - and the harness evaluates them for two grids; every potential, voltage and current sample of TransientSolution '
+        'is compared (1e-8), plus rest start, power = v*i, Kirchhoff\'s current law at every sample and settling to the exact DC gains on a long run; circuits outside the '
+        'rational-pole class get the algebraic clauses only.',
+   ref='DESIGN.md §6 C12, §7', technique='TLA+ spec (symbolic modal closed form) + TLC; spec->code replay',
+   note='As TLC_BASE; additionally: exp() is evaluated by the harness (one call per pole); exact response only for circuits with distinct Gaussian-rational poles of order <= 2.'),
 }
 
 PENDING_REASON = 'check not built yet in this round (planned: TLA+ model + conformance replay, see DESIGN.md §6); no claim is made until it exists'
@@ -110,7 +131,7 @@ def main():
                 'replay_cmd_template': f'./check {pid} --replay {{path}}',
                 'engine': 'tlc',
                 'level_claimed': {'category': c.get('category', 'model_checking'), 'text': c['text'], 'design_ref': c['ref']},
-                'level_note': c.get('note', TLC_BASE),
+                'level_note': c.get('note', TLC_BASE).replace('As TLC_BASE', TLC_BASE),
                 'technique': c['technique'],
             })
         else:
